@@ -266,6 +266,59 @@ fn sweep_case(ctx: &Ctx, rep: &mut Report, rng: &mut Rng, cfg: &DbCfg, slice: us
 			check_key(&db, &k, model.get(&k), rep, &cfg_key, "read-back after overwrite")?;
 			rep.count("overwrite_transitions", 1);
 			rep.seen(format!("ow:{}->{}:{}", class_of(old_len, overhead), class_of(new_len, overhead), cfg_key));
+			if t % 20 == 13 {
+				// process stopped here: the last overwrites (slots freed and re-used, chains cut or
+				// extended) are logged and synced, not applied. A copy of the directory is opened
+				// (the records are REPLAYED), then USED: fresh values of the size classes that were
+				// just vacated are written, the copy is drained and everything touched recently -
+				// old and new - must read back bit-exact ("released storage can be reused" holds
+				// for storage released by a replayed record too)
+				trace.push("log + flush, open a copy (replay), write into vacated size classes on the copy, verify".into());
+				let mut bound = 0;
+				while db.verif_status().queued_commits > 0 && bound < 1000 {
+					do_step(&db, Step::ProcessCommits).map_err(|e| Fail { sig: "failure=step_error;step=process_commits".into(), detail: format!("{}", e) })?;
+					bound += 1;
+				}
+				do_step(&db, Step::FlushLogs).map_err(|e| Fail { sig: "failure=step_error;step=flush_logs".into(), detail: format!("{}", e) })?;
+				let path2 = dir.path.join("copy");
+				let _ = std::fs::remove_dir_all(&path2);
+				pv::scratch::copy_dir(&path, &path2).map_err(|e| Fail { sig: "failure=harness".into(), detail: format!("copy: {}", e) })?;
+				match catch(|| Db::open(&cfg.options(&path2))) {
+					Ok(Ok(d2)) => {
+						let d2 = dbutil::Handle::new(d2);
+						let mut extra: BTreeMap<Vec<u8>, Vec<u8>> = BTreeMap::new();
+						for j in 0..6u64 {
+							let len = match j {
+								0 | 1 => old_len,
+								2 | 3 => new_len,
+								_ => *rng.pick(&small),
+							};
+							let len = if quick && len > 200_000 { len % 70_000 } else { len };
+							let kk = format!("cont{:04}-{}", t, j).into_bytes();
+							let vv = value_of_salted(&kk, len, if j % 2 == 0 { Fill::Random } else { Fill::Compressible }, 7_000 + t as u64);
+							if let Err(e) = d2.commit_changes(vec![(0u8, Operation::Set(kk.clone(), vv.clone()))]) {
+								return fail("failure=valid_commit_rejected;phase=after_replay", format!("set of {} bytes on the replayed copy rejected: {}", len, e))
+							}
+							extra.insert(kk, vv);
+							if j % 2 == 1 {
+								dbutil::drain(&d2).map_err(|e| Fail { sig: "failure=step_error;step=drain;phase=after_replay".into(), detail: format!("{}", e) })?;
+							}
+						}
+						dbutil::drain(&d2).map_err(|e| Fail { sig: "failure=step_error;step=drain;phase=after_replay".into(), detail: format!("{}", e) })?;
+						for (kk, vv) in &extra {
+							check_key(&d2, kk, Some(vv), rep, &cfg_key, "value written into a vacated size class after log replay")?;
+						}
+						for kk in keys.iter().step_by(3) {
+							check_key(&d2, kk, model.get(kk), rep, &cfg_key, "older value after log replay + further writes")?;
+						}
+						d2.close();
+						rep.count("replay_then_write_checks", 1);
+					},
+					Ok(Err(e)) => return fail("failure=open_error", format!("opening a copy of the directory failed: {}", e)),
+					Err(p) => return fail(format!("failure=open_panic;site={}", panic_site(&p)), format!("opening a copy of the directory panicked: {}", p)),
+				}
+				let _ = std::fs::remove_dir_all(&path2);
+			}
 			if t % 40 == 39 {
 				dbutil::drain(&db).map_err(|e| Fail { sig: "failure=step_error;step=drain".into(), detail: format!("{}", e) })?;
 				for k in keys.iter().step_by(7) {
